@@ -41,7 +41,7 @@ ROWS = {
     ("huffman_encoding::HuffmanWriter::start_fixed_huffman_table", "Result::unwrap"): ("guarded", "calc-huffman-codes-total", "calc_huffman_codes on the fixed length tables"),
     ("huffman_calc::calc_zlib::calc_bit_lengths", "Option::unwrap"): ("guarded", "heap-nonempty", "heap.len() <= 1 returns early; the loop runs while len > 1"),
     ("bit_reader::BitReader::<R>::read_byte", "assert!"): ("guarded", "read-byte-after-flush", "every call follows flush_buffer_to_byte_boundary"),
-    ("tree_predictor::predict_ld_trees", "assert_eq!"): ("guarded", "X2:codes-read", "the header reader accepts only when codes_read == hlit + hdist; both vectors are resized to num_literals/num_dist"),
+    ("tree_predictor::predict_ld_trees", "assert_eq!"): ("guarded", "X2:codes-read+sized", "the header reader accepts only when codes_read == hlit + hdist; both vectors are resized to num_literals/num_dist"),
     # ---- upper bounds ---------------------------------------------------------------------------
     ("<hash_chain::HashChainNormalize<H> as hash_chain::HashChain>::update_hash", "assert!"): ("ub", "update-length", "length is a token length (<= 258) or 1"),
     ("<hash_chain::HashChainNormalizeLibflate4 as hash_chain::HashChain>::update_hash", "assert!"): ("ub", "update-length", "length is a token length (<= 258) or 1"),
